@@ -133,6 +133,7 @@ struct Peer {
 	uint64_t wait_enter_ns = 0, wait_return_ns = 0;
 	bool wait_returned_success = false;
 	bool notify_consumed = false;
+	bool stray_since_success = false;
 	bool may_downgrade = false;
 	bool expect_immediate_open = false;
 	uint64_t trigger_ns = 0;
